@@ -138,7 +138,7 @@ fn families(thorough: bool) -> Vec<(String, String)> {
             }
             s
         });
-        add("jumps to one label", format!("start:\n{}end_:\n", rep("jmp end_\n", n.min(20_000))));
+        add("jumps to one label", format!("start:\n{}end_:\n", rep("jmp end_\n", n)));
         add("procedures", {
             let mut s = String::new();
             for k in 0..n.min(20_000) {
